@@ -221,6 +221,7 @@ def run(prog, chk):
     else:
         chk.bad("C18.d", f, "base64-length-check", "%s:%s" % (f.file, f.line), "fromBase64 must reject inputs whose length is not a multiple of 4")
     conversion_ranges(prog, chk, "C18.e")
+    formatted_buffers(prog, chk, "C18.f")
 
 
 INT_T = {"int": (True, 32), "unsigned int": (False, 32), "long": (True, 64), "unsigned long": (False, 64),
@@ -291,3 +292,46 @@ def conversion_ranges(prog, chk, rid):
         if len(parsers) > 1:
             chk.bad(rid, fs[0], "overloads-use-different-parsers", "%s:%s" % (fs[0].file, fs[0].line),
                     "%s: member and static overloads convert with different parsers %s" % (name, sorted(parsers)))
+
+
+FMT_MAX = {"%d": 11, "%i": 11, "%u": 10, "%x": 8, "%ld": 20, "%lu": 20, "%lld": 20, "%llu": 20, "%lx": 16, "%llx": 16, "%hd": 6, "%hu": 5}
+
+
+def formatted_buffers(prog, chk, rid):
+    """VSA: a number formatted with snprintf into a fixed local buffer and taken with the returned length needs room for the longest
+    text of the argument type plus the terminator (snprintf returns the untruncated length, it writes size-1 characters)"""
+    chk.rule(rid, "VSA: where String.cpp uses the value returned by (v)snprintf(buf, N, ...) as a length without a dominating `result < N` test, "
+                  "N covers the longest output of the (single integer) conversion plus the terminating NUL", floor=0)
+    n_sites = 0
+    for f in [f for f in prog.functions.values() if f.file.endswith("src/String.cpp")]:
+        for c in q.calls(f):
+            if f.nodes[c].get("callee") not in ("snprintf", "vsnprintf"):
+                continue
+            args = q.call_args(f, c)
+            if len(args) < 3 or q.is_zero(f, args[1]):
+                continue
+            p = f.up(c)
+            while p is not None and f.nodes[p]["k"] in ("ImplicitCastExpr", "ParenExpr", "CStyleCastExpr"):
+                p = f.up(p)
+            pn = f.nodes[p] if p is not None else None
+            # uses that are judged elsewhere (C06.h: assigned to a variable and compared) or discarded
+            if pn is None or pn["k"] in ("CompoundStmt",) or (pn["k"] == "BinaryOperator" and pn.get("op") == "=") or pn["k"] == "DeclStmt":
+                continue
+            n_sites += 1
+            size = fin.eval_expr(f, args[1], {})
+            if size is None:
+                tn = f.nodes[f.strip(args[1])]
+                if tn["k"] == "UnaryExprOrTypeTraitExpr":
+                    m = re.search(r"\[(\d+)\]", tn.get("argt", ""))
+                    size = int(m.group(1)) if m else None
+            fmt = f.nodes[f.strip(args[2])]
+            text = "".join(chr(b) for b in fmt.get("bytes", [])) if fmt["k"] == "StringLiteral" else None
+            need = FMT_MAX.get(text) if text else None
+            if size is not None and need is not None and size >= need + 1:
+                chk.ok(rid, f, "snprintf(\"%s\") into %d bytes, longest output %d + NUL" % (text, size, need), f.where(c), "static bound", evals=2)
+            else:
+                chk.bad(rid, f, "formatted-length-may-exceed-buffer", f.where(c),
+                        "the length returned by snprintf(buf, %s, \"%s\", ...) is used directly; the longest output needs %s characters plus the NUL, "
+                        "so the last digit is replaced by the terminator while the reported length still counts it" % (
+                            size if size is not None else f.r(args[1])[:20], text, need if need is not None else "an unknown number of"))
+    chk.extra["snprintf_length_sites"] = n_sites
